@@ -44,17 +44,19 @@ fn vf_handle_run_selection() {
                 "unreadable" => { std::fs::create_dir_all(cp_path.parent().unwrap()).unwrap(); std::fs::write(&cp_path, b"").unwrap(); }
                 _ => {}
             }
-            let command = "cmd0".to_string();
+            let command = "vf-no-such-command".to_string();
             let t3 = "target3".to_string();
             let mut targets = HashSet::new();
             if sel != "all" { targets.insert(&t3); }
             let git_opts = git::GitOptions { begin: if interval == "begin" { Some(base.as_str()) } else { None }, end: if interval == "end" { Some(head.as_str()) } else { None }, git_path: "git" };
             let input = HandleRunInput { git_opts, commands: vec![&command], sequences: vec![], targets, args: vec![], argmaps: vec![], include_deps: sel == "deps", fail_on_undefined: false, use_base_argmaps: true };
             let res = handle_run(&cfg, &input, "finder", rp).await;
+            // nothing is defined for cmd0 in this repository and --fail-on-undefined is not given: an undefined command is skipped, never a failure
+            let said_failed = res.as_ref().ok().map(|o| o.failed).unwrap_or(false);
             // what `analyze` says for the same checkpoint and interval
             let ai = analyze::HandleAnalyzeInput { git_opts: git::GitOptions { begin: input.git_opts.begin, end: input.git_opts.end, git_path: "git" }, analyze_input: analyze::AnalyzeInput::new(false, false, true) };
             let an = analyze::handle_analyze(&cfg, &ai, rp).await;
-            match sel {
+            let verdict = match sel {
                 "all" => match (cp_state, res) {
                     ("unreadable", Ok(o)) => Some(format!("the checkpoint file exists but cannot be read: `analyze` says {:?}, yet the run went ahead over {:?} with checkpointed={} (C05)", an.as_ref().err().map(|e| e.to_string()), vf_covered(&o), o.checkpointed)),
                     ("unreadable", Err(_)) => None,
@@ -64,7 +66,8 @@ fn vf_handle_run_selection() {
                 },
                 "named" => match res { Ok(o) => { if vf_groups(&o) != vec![vec!["target3".to_string()]] { Some(format!("`-t target3` without --deps must run exactly target3; groups {:?} (C05)", vf_groups(&o))) } else { None } } Err(e) => if cp_state == "unreadable" { None } else { Some(format!("failed: {} (C05)", e)) } },
                 _ => match res { Ok(o) => { let want = vec![vec!["target1".to_string(), "target2".to_string()], vec!["target3".to_string()]]; if vf_groups(&o) != want { Some(format!("`-t target3 --deps` must run the dependency closure of target3, dependencies first - {:?} - whatever the checkpoint or interval; groups {:?} (C03)", want, vf_groups(&o))) } else { None } } Err(e) => if cp_state == "unreadable" { None } else { Some(format!("failed: {} (C03)", e)) } },
-            }
+            };
+            if said_failed { Some(verdict.map(|v| v + "; also: ").unwrap_or_default() + "no target defines the command vf-no-such-command and --fail-on-undefined was not given, yet the run reports failed=true: undefined commands are skipped (C16) (C05) (C06)") } else { verdict }
         });
         if let Some(p) = r { bad += 1; println!("VF-FAIL {} :: {}", what, p); }
     } } }
